@@ -288,6 +288,16 @@ func checkCleanupRootAlive(p *Prog, r *Report) {
 					if f := calleeOf(d); f != nil && f.Name() == "Cleanup" {
 						cleanupDefer = d
 					}
+					// a deferred literal that calls Cleanup (and keeps its error)
+					if mc, ok := d.Call.Value.(*ssa.MakeClosure); ok {
+						if lit, ok := mc.Fn.(*ssa.Function); ok {
+							allCalls(lit, func(c ssa.CallInstruction) {
+								if f := calleeOf(c); f != nil && f.Name() == "Cleanup" {
+									cleanupDefer = d
+								}
+							})
+						}
+					}
 				}
 			}
 		}
